@@ -5,11 +5,13 @@ from harness import common, doc_checks, tree_check
 def run(ctx: common.Ctx):
     tree_check.setup(ctx, 'C06')
     doc_checks.run_c06(ctx)
+    doc_checks.run_c06_payee_grid(ctx)
     tree_check.correspondence(ctx, 'C06')
 
 
 def search(ctx: common.Ctx):
     doc_checks.run_c06(ctx)
+    doc_checks.run_c06_payee_grid(ctx)
 
 
 def replay(ctx, path):
